@@ -143,10 +143,14 @@ inductive JValue (o : GOpts) (maxDepth : Nat) (key : Bytes → Bytes) : Nat → 
 def JText (o : GOpts) (maxDepth : Nat) (key : Bytes → Bytes) (b : Bytes) : Prop :=
   ∃ w1 v w2, JWs w1 ∧ JValue o maxDepth key 0 v ∧ JWs w2 ∧ b = w1 ++ v ++ w2
 
-/-- A stream: texts one after another (`ws value` repeated, then `ws`). -/
+/-- A stream: texts one after another (`ws value` repeated, then `ws`), read with maximal munch: numbers are
+the only values that are not self-terminating, so a number must not be extendable by the byte that follows it
+(`12` is one value, not `1` then `2`; `1.52.5` is not a stream although `1.5` and `2.5` are texts; `01`, `1-2`,
+`1"a"` and `1 2` are streams of two values). -/
 inductive JStream (o : GOpts) (maxDepth : Nat) (key : Bytes → Bytes) : Bytes → Prop
   | done (w : Bytes) : JWs w → JStream o maxDepth key w
-  | next (w v rest : Bytes) : JWs w → JValue o maxDepth key 0 v → JStream o maxDepth key rest →
-      JStream o maxDepth key (w ++ v ++ rest)
+  | next (w v rest : Bytes) : JWs w → JValue o maxDepth key 0 v →
+      (JNumber v → ∀ c t, rest = c :: t → ¬ NumPrefix (v ++ [c])) →
+      JStream o maxDepth key rest → JStream o maxDepth key (w ++ v ++ rest)
 
 end JsonV.Spec.Grammar
